@@ -313,7 +313,7 @@ def run(ctx):
     ctx.cov["events"] = len(evs)
     ne = 0
     nonzero_rows = inrange_rows = 0
-    for alt, iono, band in itertools.product([33.0, 89.0, 91.0, 525.0], [True, False], [(30, 300), (300, 1000)] if tier == "quick" else [(30, 300), (300, 1000), (30, 80), (200, 1200), (500, 510)]):
+    for alt, iono, band in itertools.product([3.0, 33.0, 89.0, 91.0, 525.0], [True, False], [(30, 300), (300, 1000)] if tier == "quick" else [(30, 300), (300, 1000), (30, 80), (200, 1200), (500, 510)]):
         v, info = judge_events(alt, iono, band, evs, tier)
         ne += len(evs)
         ctx.tick(len(evs) * 8, ("ev", alt, iono, band, info))
